@@ -19,10 +19,14 @@ Record wobs := mkWobs {
   c_ret    : nat                         (* 0 WriteSpec returned nil, 1 an error, 77 the process died at the hook *)
 }.
 
+(* a failure arranged by the fixture: the rename is refused (a directory at the target; a sticky directory in which the
+   target belongs to somebody else) or no file can be created in the directory (no write permission on it) *)
+Inductive inject := InjNone | InjRename | InjCreate.
+
 Inductive case10 :=
-| CTrace (w : wobs) (rnd : string) (limit : option N) (rfail : bool) (ops : list op)   (* under strace; injected: RLIMIT_FSIZE, rename failure *)
-| CCrash (w : wobs) (rnd : string) (rfail : bool) (hook : nat)                         (* died at verifPoint number hook (5: none) *)
-| CLimit (w : wobs) (rnd : string) (limit : option N)                                  (* RLIMIT_FSIZE, no strace *)
+| CTrace (w : wobs) (rnd : string) (limit : option N) (inj : inject) (ops : list op)   (* under strace; injected: RLIMIT_FSIZE, rename / create failure *)
+| CCrash (w : wobs) (rnd : string) (inj : inject) (hook : nat)                         (* VERIF_CRASH_AT = verifPoint number hook (5: none) *)
+| CLimit (w : wobs) (rnd : string) (limit : option N) (inj : inject)                   (* RLIMIT_FSIZE, no strace *)
 | CConc (target : name) (allowedB allowedS seenB seenS : list string) (seenScan : list (name * string))
         (finalSpec : list name) (noWriteErr : bool)                                    (* concurrent readers *)
 | CName (n : string) (visited : bool).                                                 (* scanner filter *)
@@ -49,11 +53,24 @@ Definition effectful (ops : list op) : list op :=
 Definition chunk_sizes (ops : list op) : list nat :=
   flat_map (fun o => match o with WriteChunk _ b => [String.length b] | _ => [] end) ops.
 
-Definition fault_of (new : bytes) (limit : option N) (rfail : bool) : fault :=
-  match limit with
-  | Some l => if (l <? N.of_nat (String.length new))%N then WriteFails (N.to_nat l)
-              else if rfail then RenameFails else NoFault
-  | None => if rfail then RenameFails else NoFault
+Definition fault_of (new : bytes) (limit : option N) (inj : inject) : fault :=
+  match inj with
+  | InjCreate => CreateFails          (* nothing is ever written *)
+  | _ =>
+      let late := match inj with InjRename => RenameFails | _ => NoFault end in
+      match limit with
+      | Some l => if (l <? N.of_nat (String.length new))%N then WriteFails (N.to_nat l) else late
+      | None => late
+      end
+  end.
+
+(* is verifPoint number hook reached at all under fault f (the child dies there), or does WriteSpec return first *)
+Definition hook_reached (f : fault) (hook : nat) : bool :=
+  match f with
+  | MkdirFails => false
+  | CreateFails => Nat.eqb hook 0
+  | WriteFails _ => Nat.leb hook 2
+  | _ => Nat.leb hook 4
   end.
 
 Definition params (w : wobs) (rnd : string) (chunks : list nat) (f : fault) : wparams :=
@@ -72,21 +89,21 @@ Definition ret_of (f : fault) : nat := match f with NoFault => 0 | _ => 1 end.
 
 Definition corr10 (c : case10) : bool :=
   match c with
-  | CTrace w rnd limit rfail ops =>
-      let f := fault_of (c_new w) limit rfail in
+  | CTrace w rnd limit inj ops =>
+      let f := fault_of (c_new w) limit inj in
       let p := params w rnd (chunk_sizes ops) f in
       list_eqb op_eqb (effectful ops) (effectful (writer_ops p)) &&
       entries_eqb (listing (run ops (st0_of w))) (sort_entries (c_l1 w)) &&
       Nat.eqb (c_ret w) (ret_of f) &&
       scan_matches (c_l0 w) (c_s0 w) && scan_matches (c_l1 w) (c_s1 w)
-  | CCrash w rnd rfail hook =>
-      let f := if rfail then RenameFails else NoFault in
+  | CCrash w rnd inj hook =>
+      let f := fault_of (c_new w) None inj in
       let p := params w rnd [] f in
       entries_eqb (listing (run (firstn (crash_prefix p hook) (writer_ops p)) (st0_of w))) (sort_entries (c_l1 w)) &&
-      Nat.eqb (c_ret w) (if Nat.ltb hook 5 then 77 else ret_of f) &&
+      Nat.eqb (c_ret w) (if hook_reached f hook then 77 else ret_of f) &&
       scan_matches (c_l0 w) (c_s0 w) && scan_matches (c_l1 w) (c_s1 w)
-  | CLimit w rnd limit =>
-      let f := fault_of (c_new w) limit false in
+  | CLimit w rnd limit inj =>
+      let f := fault_of (c_new w) limit inj in
       let p := params w rnd [] f in
       entries_eqb (listing (run (writer_ops p) (st0_of w))) (sort_entries (c_l1 w)) &&
       Nat.eqb (c_ret w) (ret_of f) &&
@@ -118,7 +135,7 @@ Definition oracle10 (c : case10) : bool :=
   match c with
   | CTrace w _ _ _ ops => ops_ok w ops && obs_ok w
   | CCrash w _ _ _ => obs_ok w
-  | CLimit w _ _ => obs_ok w
+  | CLimit w _ _ _ => obs_ok w
   | CConc target allowedB allowedS seenB seenS seenScan finalSpec _ =>
       forallb (fun h => mem_s h allowedB) seenB &&
       forallb (fun h => mem_s h allowedS) seenS &&
